@@ -12,7 +12,8 @@ TARGETED = [("shallow3", "decoys", None), ("weakchiral4", "decoys", True), ("chi
             ("axis_asym4", "antiparallel", None), ("pair_y", "antiparallel", None), ("asym4", "corners", None), ("bent3_y", "stretched", None),
             ("collinear3", "corners", None), ("single", "mixed", None),
             ("pair", "stretched-axis", None), ("axis_asym4", "stretched-axis", None), ("shallow3", "stretched-axis", None), ("asym4", "stretched-axis", None),
-            ("asym4", "crowded", True), ("faintchiral5", "decoys", True), ("faintchiral5", "decoys", None)]
+            ("asym4", "crowded", True), ("faintchiral5", "decoys", True), ("faintchiral5", "decoys", None),
+            ("asym4", "corners", "ortho"), ("bent3_y", "corners", "ortho"), ("axis_asym4", "mixed", "ortho"), ("asym4", "corners", "rot-ortho")]
 
 
 def py_out_problem(c, idx, mpos, q):
@@ -70,7 +71,8 @@ def run_find_property(pid, tier, seed, replay, propfiles, flavors, ncases, rule,
             for ti, (pat, flavor, big) in enumerate(TARGETED):
                 for rep in range(3):
                     # three consecutive k: the three tolerances 1/20, 1/10, 1/50 each occur once
-                    c = FG.make_case(run.rng, 1000 + 17 * ti + rep, flavor=flavor, pattern=pat, big=big)
+                    c = FG.make_case(run.rng, 1000 + 17 * ti + rep, flavor=flavor, pattern=pat, big=(big if isinstance(big, bool) or big is None else None),
+                                     cellkind=(big if isinstance(big, str) else None))
                     if c is not None:
                         cases.append((c, run.rng.randrange(1 << 30), "targeted:" + flavor))
             k = 0
